@@ -14,7 +14,7 @@ import struct
 
 from ..cfg import known_falsy
 from ..model import self_attr, unparse, walk_body_shallow
-from .util import call_name, call_recv, calls_in, kwarg, need, node_assign_value, norm, where
+from .util import const_value, call_name, call_recv, calls_in, kwarg, need, node_assign_value, norm, where
 
 TECHNIQUE = "request-table typestate (remove-before-fire dominance), def-use of the correlated frame, header offset " \
             "agreement, inert-branch effect check, framing override check"
@@ -105,16 +105,25 @@ def run(ctx):
     # ---- R3 id offsets
     r = ctx.rule("R3", "correlation-id slices agree with the header layouts (request offset 4, response offset 0)", 3, "F")
     hdr = ctx.func("kafkacodec:KafkaCodec._encode_message_header")
-    packs = [c for c in calls_in(hdr, "pack")]
-    need(packs and isinstance(packs[0].args[0], ast.Constant), "header struct.pack not found")
-    fmt = packs[0].args[0].value
-    args = [norm(a) for a in packs[0].args[1:]]
-    need("correlation_id" in args, "correlation_id is not packed by the header encoder")
-    k = args.index("correlation_id")
-    codes = [ch_ for ch_ in fmt if ch_.isalpha()]
-    prefix = fmt[0] + "".join(codes[:k]) if fmt[0] in "><!=@" else "".join(codes[:k])
-    off = struct.calcsize(prefix)
-    size = struct.calcsize((fmt[0] if fmt[0] in "><!=@" else "") + codes[k])
+    # the header grammar as extracted from the encoder (one pack or several, formats through constants): the
+    # correlation id is the leaf bound to the parameter of that name; its offset is the size of the leaves before it
+    from .. import wireshape as W
+    hterms, henv = W.encoder_terms(prog, hdr)
+    cid_param = [p_ for p_ in hdr.params if "correlation" in p_]
+    need(cid_param, "correlation id parameter of the header encoder not found")
+    SIZES = {"INT8": 1, "UINT8": 1, "INT16": 2, "UINT16": 2, "INT32": 4, "UINT32": 4, "INT64": 8, "UINT64": 8}
+    CODE = {"INT8": "b", "UINT8": "B", "INT16": "h", "UINT16": "H", "INT32": "i", "UINT32": "I", "INT64": "q", "UINT64": "Q"}
+    off, size, code = 0, None, None
+    for t in hterms:
+        if t[0] == "P" and t[2] == cid_param[0]:
+            size, code = SIZES[t[1]], CODE[t[1]]
+            break
+        need(t[0] == "P", "header struct.pack not found")
+        off += SIZES[t[1]]
+    need(size is not None, "correlation_id is not packed by the header encoder")
+    fmt = "".join(sorted(henv.endians)) + "".join(CODE[t[1]] for t in hterms if t[0] == "P")
+    codes = [code]
+    k = 0
     req = ctx.func("_protocol:KafkaBootstrapProtocol.request")
     sl = [x.value for x in walk_body_shallow(req.body) if isinstance(x, ast.Assign) and isinstance(x.value, ast.Subscript) and
           unparse(x.value.value) == req.first_param()]
@@ -126,8 +135,9 @@ def run(ctx):
     r.check(okr, "%s#response-id-slice" % sr.qname, "bootstrap response id slice is not [0:%d]" % size, where(sr, sr.node))
     gid = ctx.func("kafkacodec:KafkaCodec.get_response_correlation_id")
     ru = calls_in(gid, "relative_unpack")
-    ok = len(ru) == 1 and isinstance(ru[0].args[0], ast.Constant) and struct.calcsize(ru[0].args[0].value) == size and \
-        ru[0].args[0].value.lstrip("><!") == codes[k] and norm(ru[0].args[2]) == "0"
+    rfm = const_value(prog, gid, ru[0].args[0]) if len(ru) == 1 else None
+    ok = len(ru) == 1 and isinstance(rfm, str) and struct.calcsize(rfm) == size and \
+        rfm.lstrip("><!") == codes[k] and rfm[:1] in "><!" and norm(ru[0].args[2]) == "0"
     r.check(ok, "%s#response-id-decode" % gid.qname, "response correlation id is not decoded as %r at offset 0" % codes[k], where(gid, gid.node))
 
     # ---- R4 inert branches
